@@ -48,6 +48,7 @@ import re
 from typing import Any, Dict, List, Optional, Tuple
 
 from mc import simctl, world
+from mc.report import guard_harness as _guard
 from mc.report import add_sample, add_violation, count, new_part
 from props.c04 import C, Q, R, to_real
 
@@ -364,6 +365,7 @@ class World:
                 if y == "WAIT":
                     return ("susp", gen)
         except Exception as exc:  # Horizon/Blocked are BaseExceptions and propagate (broken check)
+            _guard(exc)
             text = str(exc).splitlines()[0][:200] if str(exc) else ""
             m = re.match(r"At line (\d+):", text)
             return ("fault", type(exc).__name__, text, int(m.group(1)) if m else None)
@@ -427,6 +429,7 @@ class World:
             try:
                 ex._handle_pending_epr_responses()
             except Exception as exc:
+                _guard(exc)
                 obs["api_error"] = f"{type(exc).__name__}: {str(exc).splitlines()[0][:160] if str(exc) else ''}"
             obs["st"] = ("done",)
             self._poll_after(ev[1], None, obs)
@@ -475,6 +478,7 @@ class World:
             try:
                 ex._handle_epr_response(resp)
             except Exception as exc:
+                _guard(exc)
                 obs["api_error"] = f"{type(exc).__name__}: {str(exc).splitlines()[0][:160] if str(exc) else ''}"
             obs["st"] = ("done",)
             self._poll_after(c, g, obs)
@@ -508,7 +512,7 @@ def build(cfg, history) -> World:
 def _regs(groups) -> Dict[str, int]:
     out = {}
     for name, grp in groups.items():
-        for idx, v in grp._register.items():
+        for idx, v in simctl.register_items(grp):
             if v is not None:
                 out[f"{name.name}{idx}"] = v
     return dict(sorted(out.items()))
